@@ -135,6 +135,27 @@ pub fn corr_c08(seed: u64, n: u64) {
         stats.count(&format!("fit.curves.{}", match fit.as_ref().map(|f| f.len()) { None => "none", Some(1) => "1", Some(2..=4) => "2_to_4", Some(_) => "ge_5" }));
         println!("{}", line);
     }
+    // ... fit_curve_loop (the same block loop with tangents taken across the ends of the list) ...
+    for it in 0..(n / 8 + 30) {
+        let mut input = crate::c08::gen_input(&mut rng2);
+        if input.pts.len() > 450 && it % 4 != 0 { input.pts.truncate(3 + (it as usize * 11) % 90); }
+        let max_error = if rng2.b() { rng2.r(0.05, 2.0) } else { 10f64.powf(rng2.r(-2.0, 0.3)) };
+        let pts = input.pts.clone();
+        let pts2 = pts.clone();
+        let mut line = format!("C08 fitloop R {} #{}", hx(max_error), pts.len());
+        for p in &pts { line += &format!(" {} {}", hx(p.0), hx(p.1)); }
+        match std::panic::catch_unwind(move || fit_curve_loop::<Curve<Coord2>>(&pts2, max_error)) {
+            Err(_) => { println!("{} | #2 #0", line); stats.count("fitloop.implementation_panicked"); continue; }
+            Ok(None) => line += " | #0 #0",
+            Ok(Some(cs)) => {
+                line += &format!(" | #1 #{}", cs.len());
+                for c in &cs { let (c1, c2) = c.control_points(); for q in [c.start_point(), c1, c2, c.end_point()] { line += &format!(" {} {}", hx(q.0), hx(q.1)); } }
+            }
+        }
+        stats.case(&format!("fitloop {} {}", input.class, pts.len()), pts.len() >= 3);
+        stats.count(&format!("fitloop.len.{}", if pts.len() < 200 { "lt_200" } else { "ge_200" }));
+        println!("{}", line);
+    }
     // ... and fit_curve_cubic with tangents of the caller's choice (not unit length, not related to the points)
     for it in 0..(n / 8 + 20) {
         let mut input = crate::c08::gen_input(&mut rng2);
